@@ -620,7 +620,11 @@ func c02Attribution(c *Ctx, r *Result) {
 	fName := c.Field("engine", "Rule", "Name")
 	n := 0
 	// (1) errors[rule.Name] = err of rule.Action
-	for _, fn := range c.Implementations(procIface, "ProcessEvent") {
+	for _, pfn := range c.Implementations(procIface, "ProcessEvent") {
+		fn := pfn
+		if rl := findRuleLoop(c, pfn, fAction); rl != nil {
+			fn = rl.LoopFn // the loop may live in a helper
+		}
 		key := c.FuncKey(fn)
 		allInstrs(fn, func(in ssa.Instruction) {
 			mu, ok := in.(*ssa.MapUpdate)
